@@ -71,7 +71,7 @@ def lexpath(p, root, lex):
     """path string -> list of segments, each a list of lexemes; the configured root is 'ROOT'"""
     p = str(p)
     if p == root or p.startswith(root + '/'):
-        rest = p[len(root):].strip('/')
+        rest = p[len(root):].lstrip('/')
         return [['ROOT']] + ([[enc(x) for x in lex(s)] for s in rest.split('/')] if rest else [])
     return [[enc(x) for x in lex(s)] if s else [''] for s in p.split('/')]
 
